@@ -268,20 +268,24 @@ fn is_identity_acceptable(items: &'_ [QualityItem<Preference<Encoding>>]) -> boo
         return true;
     }
 
-    // Loop algorithm depends on items being sorted in descending order of quality. As such, it
-    // is sufficient to return (q > 0) when reaching either an "identity" or "*" item.
-    for q in items {
-        match (q.quality, &q.item) {
-            // occurrence of "identity;q=n"; return true if quality is non-zero
-            (q, Preference::Specific(Encoding::Known(ContentEncoding::Identity))) => {
-                return q > Quality::ZERO
-            }
+    // An explicit "identity;q=n" entry is more specific than "*;q=n" and decides on its own
+    // (RFC 7231 §5.3.4: identity is acceptable unless excluded by "identity;q=0" or by "*;q=0"
+    // without a more specific entry for "identity"). Items are sorted in descending order of
+    // quality, so with duplicate entries the most favourable one is found first.
+    let explicit_identity = items.iter().find(|q| {
+        matches!(
+            q.item,
+            Preference::Specific(Encoding::Known(ContentEncoding::Identity))
+        )
+    });
 
-            // occurrence of "*;q=n"; return true if quality is non-zero
-            (q, Preference::Any) => return q > Quality::ZERO,
+    if let Some(q) = explicit_identity {
+        return q.quality > Quality::ZERO;
+    }
 
-            _ => {}
-        }
+    // otherwise "*;q=n" covers identity; return true if quality is non-zero
+    if let Some(q) = items.iter().find(|q| matches!(q.item, Preference::Any)) {
+        return q.quality > Quality::ZERO;
     }
 
     // implicit acceptable identity
